@@ -86,11 +86,13 @@ class Event:
         self.args = tuple(args)
         self.kwargs = dict(kwargs)
         self.result = result
+        self.heap = None      # heap snapshot at the time of the call (for coherence obligations)
         self.loop = []        # enclosing invariant loops: (index term, lo, hi, loop key)
         self.cond = []        # path conditions (inside the loop body) under which the call happens
 
     def in_loop(self, info, cond):
         e = Event(self.label, self.recv, self.args, self.kwargs, self.result)
+        e.heap = self.heap
         e.loop = [info] + list(self.loop)
         e.cond = list(cond) + list(self.cond)
         return e
